@@ -185,6 +185,13 @@ var c12Scenarios = map[string]c12Scenario{
 		}
 		return err
 	}, func(b, l afero.Fs) afero.Fs { return afero.NewCopyOnWriteFs(b, l) }},
+	// the metadata calls and Rename copy the file first as well: an incomplete copy is an error of the call
+	"cache-chtimes": {"cache-chtimes", func(b, l afero.Fs, p string) error {
+		tm := time.Now().Add(-time.Minute)
+		return afero.NewCacheOnReadFs(b, l, time.Hour).Chtimes(p, tm, tm)
+	}, func(b, l afero.Fs) afero.Fs { return afero.NewCacheOnReadFs(b, l, time.Hour) }},
+	"cache-chmod": {"cache-chmod", func(b, l afero.Fs, p string) error { return afero.NewCacheOnReadFs(b, l, time.Hour).Chmod(p, 0o600) },
+		func(b, l afero.Fs) afero.Fs { return afero.NewCacheOnReadFs(b, l, time.Hour) }},
 	"cache-openfile": {"cache-openfile", func(b, l afero.Fs, p string) error {
 		f, err := afero.NewCacheOnReadFs(b, l, time.Hour).OpenFile(p, os.O_RDONLY, 0)
 		if f != nil {
